@@ -165,6 +165,11 @@ func ruleC18(c *Ctx) {
 		if _, lib := c.libraryFunc(fn); !lib {
 			continue
 		}
+		if !c.handedToCaller(fn, a.Funcs(), map[*ssa.Function]bool{}) {
+			// an unexported helper whose result no exported function returns: the closure stays inside the library
+			// (the disassembler's printer built by a helper and used during that one call)
+			continue
+		}
 		for _, mc := range returnedClosures(fn) {
 			cl, _ := mc.Fn.(*ssa.Function)
 			if cl == nil {
@@ -425,6 +430,39 @@ func (c *Ctx) checkNoRetainedStorage(rule string) {
 
 // returnedClosures lists the closures created in fn that fn returns (directly, through a conversion to a named
 // function type, or through a phi).
+// handedToCaller: what fn returns can reach a caller of the library: fn is exported (a method counts by its own
+// name), or some function of the module returns the result of a call of fn and is itself handed to a caller.
+func (c *Ctx) handedToCaller(fn *ssa.Function, all []*ssa.Function, seen map[*ssa.Function]bool) bool {
+	if seen[fn] {
+		return false
+	}
+	seen[fn] = true
+	if fn.Parent() != nil {
+		return true // a function literal: decided where it is built
+	}
+	if fn.Object() == nil || fn.Object().Exported() {
+		return true
+	}
+	for _, g := range all {
+		for _, b := range g.Blocks {
+			ret, ok := b.Instrs[len(b.Instrs)-1].(*ssa.Return)
+			if !ok {
+				continue
+			}
+			for _, res := range ret.Results {
+				for _, lf := range ssaPhiLeaves(ssaLoadedValue(res, g)) {
+					if call, ok := ssaStripConv(lf).(*ssa.Call); ok && call.Common().StaticCallee() == fn {
+						if c.handedToCaller(g, all, seen) {
+							return true
+						}
+					}
+				}
+			}
+		}
+	}
+	return false
+}
+
 func returnedClosures(fn *ssa.Function) []*ssa.MakeClosure {
 	var out []*ssa.MakeClosure
 	for _, b := range fn.Blocks {
